@@ -54,3 +54,27 @@ Definition invalidates (m : method) : bool :=
   end.
 (* public methods of Model that write a container directly and are unknown to the state machine *)
 Definition unknown_mutators : list string := [].
+(* the batch mutators: plain fold of the single-item mutator / names validated first / unrecognised *)
+Inductive batch_mode := BatchFold | BatchValidated | BatchUnknown.
+Inductive batch :=
+| B_add_parameters
+| B_remove_parameters
+| B_update_parameters
+| B_scale_parameters
+| B_add_variables
+| B_remove_variables
+| B_update_variables.
+Definition batch_form (b : batch) : batch_mode :=
+  match b with
+  | B_add_parameters => BatchValidated
+  | B_remove_parameters => BatchValidated
+  | B_update_parameters => BatchValidated
+  | B_scale_parameters => BatchValidated
+  | B_add_variables => BatchValidated
+  | B_remove_variables => BatchValidated
+  | B_update_variables => BatchValidated
+  end.
+(* methods of Model that raise ArityMismatchError / call _check_function_arity *)
+Definition arity_raisers : list string := ["_create_cache"%string].
+(* _create_cache checks the arity of initial assignments, derived, reactions, readouts before it sorts *)
+Definition arity_checked_before_sort : bool := true.
